@@ -42,3 +42,23 @@ Example C15_nonvacuous :
   data_world_new [PA [] None 0 [PC [] None 0]; PA [] (Some 3%N) 1 [PC [] None 0; PC [] (Some 7%N) 1; PC [] None 2]; PA [] None 2 [PC [] None 1]] []
   = inr [DA 0 0 [DC 0 0]; DA 3 1 [DC 0 0; DC 7 1; DC 8 2]; DA 4 2 [DC 0 1]].
 Proof. vm_compute. reflexivity. Qed.
+
+(** Both directions: for every declaration and truth assignment under which every cfg predicate has a
+    state, DataWorld::new succeeds exactly when the discriminant rule is satisfiable (no implicit id
+    past 255, ids pairwise distinct) for the enabled archetypes and for the enabled components of each
+    enabled archetype.  A declaration that would duplicate an id or count past 255 does not compile,
+    and no other declaration is refused. *)
+Theorem C15_compiles_iff_rule_satisfiable : forall w states,
+  let lk := cfg_lookup (world_predicates w) states in
+  Forall (fun a => is_Some (evaluate_cfgs lk (pa_cfgs a)) /\ Forall (fun c => is_Some (evaluate_cfgs lk (pc_cfgs c))) (pa_comps a)) w ->
+  ((exists ds, data_world_new w states = inr ds) <->
+   (rule_ok (pa_id <$> enabled_archs lk w) None [] /\
+    Forall (fun a => rule_ok (pc_id <$> enabled_comps lk (pa_comps a)) None []) (enabled_archs lk w))).
+Proof. exact data_world_new_succeeds_iff. Qed.
+
+Example C15_refused_instances :
+  (* implicit successor of an explicit 255 *)
+  data_world_new [PA [] (Some 255%N) 0 [PC [] None 0]; PA [] None 1 [PC [] None 0]] [] = inl (EExceeds 1) /\
+  (* an implicit id colliding with an earlier explicit one *)
+  data_world_new [PA [] (Some 1%N) 0 [PC [] None 0]; PA [] (Some 0%N) 1 [PC [] None 0]; PA [] None 2 [PC [] None 0]] [] = inl (EAssigned 1 2 0).
+Proof. vm_compute. split; reflexivity. Qed.
